@@ -5,6 +5,7 @@ import (
 	"os"
 	"path/filepath"
 	"strings"
+	"unicode/utf8"
 
 	"github.com/Vedant9500/WTF/internal/config"
 	"github.com/Vedant9500/WTF/internal/database"
@@ -120,7 +121,7 @@ func saveToPersonalDatabase(dbPath string, entry database.Command) error {
 }
 
 func writePersonalDatabase(dbPath string, commands []database.Command) error {
-	data, err := yaml.Marshal(commands)
+	data, err := marshalNotebook(commands)
 	if err != nil {
 		return fmt.Errorf("failed to marshal commands: %w", err)
 	}
@@ -132,4 +133,64 @@ func writePersonalDatabase(dbPath string, commands []database.Command) error {
 	}
 
 	return nil
+}
+
+// notebookText is a string of a notebook entry as it is written to personal.yml.
+//
+// For multi-line text the YAML encoder picks a block scalar, and when the text begins
+// with a line break or other white space the block it writes cannot be read back: the
+// text comes back changed or the whole notebook no longer parses, which makes every
+// later save fail and hides the notebook from searches. Such strings are written
+// double-quoted instead, which round-trips every string.
+type notebookText string
+
+// MarshalYAML implements yaml.Marshaler.
+func (t notebookText) MarshalYAML() (interface{}, error) {
+	v := string(t)
+	if utf8.ValidString(v) && strings.ContainsAny(v, "\n\r") {
+		switch v[0] {
+		case '\n', '\r', ' ', '\t':
+			return &yaml.Node{Kind: yaml.ScalarNode, Tag: "!!str", Value: v, Style: yaml.DoubleQuotedStyle}, nil
+		}
+	}
+	return v, nil
+}
+
+// notebookEntry mirrors the YAML fields of database.Command with notebookText strings.
+type notebookEntry struct {
+	Command     notebookText   `yaml:"command"`
+	Description notebookText   `yaml:"description"`
+	Keywords    []notebookText `yaml:"keywords"`
+	Tags        []notebookText `yaml:"tags,omitempty"`
+	Niche       notebookText   `yaml:"niche,omitempty"`
+	Platform    []notebookText `yaml:"platform,omitempty"`
+	Pipeline    bool           `yaml:"pipeline"`
+}
+
+func notebookTexts(in []string) []notebookText {
+	if in == nil {
+		return nil
+	}
+	out := make([]notebookText, len(in))
+	for i, s := range in {
+		out[i] = notebookText(s)
+	}
+	return out
+}
+
+// marshalNotebook encodes the notebook as YAML that the loader reads back unchanged.
+func marshalNotebook(commands []database.Command) ([]byte, error) {
+	entries := make([]notebookEntry, len(commands))
+	for i, c := range commands {
+		entries[i] = notebookEntry{
+			Command:     notebookText(c.Command),
+			Description: notebookText(c.Description),
+			Keywords:    notebookTexts(c.Keywords),
+			Tags:        notebookTexts(c.Tags),
+			Niche:       notebookText(c.Niche),
+			Platform:    notebookTexts(c.Platform),
+			Pipeline:    c.Pipeline,
+		}
+	}
+	return yaml.Marshal(entries)
 }
